@@ -35,33 +35,21 @@ def roundQuot (tm : Mode) (quot : Int) (rem divisor : Nat) (mode : Option Mode) 
     if remDoubled > divisor ∨ (remDoubled = divisor ∧ quot ≥ 0) then checkedI128 (quot + 1) else some quot
   | .up => if quot ≥ 0 then checkedI128 (quot + 1) else some quot
 
-/-- `i128_div_rounded` -/
+/-- `i128_div_rounded` (after the D13 repair: floor division by the signed divisor, no operand is negated) -/
 def i128DivRounded (prof : Profile) (tm : Mode) (divident divisor : Int) (mode : Option Mode) :
     Outcome Int := do
-  let (divident, divisor) ←
-    if divisor < 0 then do
-      let a ← negI128 prof divident
-      let b ← negI128 prof divisor
-      pure (a, b)
-    else pure (divident, divisor)
   let (quot, rem) ← i128DivModFloor prof divident divisor
-  match roundQuot tm quot (IntTy.u128.cast rem).toNat (IntTy.u128.cast divisor).toNat mode with
+  match roundQuot tm quot rem.natAbs divisor.natAbs mode with
   | some q => pure q
   | none => .panic .unwrap
 
-/-- `i128_shifted_div_rounded` -/
+/-- `i128_shifted_div_rounded` (after the D13 repair) -/
 def i128ShiftedDivRounded (prof : Profile) (tm : Mode) (divident : Int) (p : Nat) (divisor : Int)
     (mode : Option Mode) : Outcome (Option Int) := do
-  let (divident, divisor) ←
-    if divisor < 0 then do
-      let a ← negI128 prof divident
-      let b ← negI128 prof divisor
-      pure (a, b)
-    else pure (divident, divisor)
   match ← i128ShiftedDivModFloor prof divident p divisor with
   | none => pure none
   | some (quot, rem) =>
-    pure (roundQuot tm quot (IntTy.u128.cast rem).toNat (IntTy.u128.cast divisor).toNat mode)
+    pure (roundQuot tm quot rem.natAbs divisor.natAbs mode)
 
 /-- `i128_mul_div_ten_pow_rounded` -/
 def i128MulDivTenPowRounded (prof : Profile) (tm : Mode) (x y : Int) (p : Nat) (mode : Option Mode) :
